@@ -103,6 +103,14 @@ def make_slice(rng, kind, E, T, t, boundary, Sk=1, rich=False):
         def comp_(bit, v):
             return ic(v, rng.choice(["size_t", "int"])) if mask & bit else T
         return Sl("S", "%s, %s, %s" % (comp_(1, o), comp_(2, x), comp_(4, sv)), [o, x, sv], mask=mask)
+    if E > 100000 and rng.random() < 0.6:
+        # a strided slice spanning (almost) a whole dimension whose extent is near the top of the index type:
+        # extent + stride is not representable although ceil(extent/stride) is
+        o = rng.choice([0, 0, 1]); x = E - o - rng.choice([0, 0, 1]); s_ = rng.choice([2, 2, 3])
+        return Sl("S", "%s, %s, %s" % (T, T, T), [o, x, s_], mask=0)
+    if boundary and E >= 1 and rng.random() < 0.25:
+        # one selected element, stride = the largest value of the index type
+        o = rng.randrange(E); return Sl("S", "%s, %s, %s" % (T, T, T), [o, 1, M], mask=0)
     if boundary and rng.random() < 0.4:
         o, x = E, 0                                 # empty strided slice at the end
     else:
